@@ -16,8 +16,10 @@ WORKER = os.path.join(VERIF, "harness", "ampworker.py")
 KINDS = ["cpp", "py", "read:AmplitudeChain", "read:GooFitChain", "read:GooFitPyChain"]
 
 
-def worker(calls, hashseed=None, cache=True, timeout=900):
+def worker(calls, hashseed=None, cache=True, timeout=900, extra_env=None):
     env = dict(os.environ)
+    if extra_env:
+        env.update(extra_env)
     if hashseed is not None:
         env["PYTHONHASHSEED"] = str(hashseed)
     p = subprocess.run([sys.executable, WORKER, json.dumps({"calls": calls, "cache": cache})], capture_output=True, text=True, env=env, timeout=timeout)
@@ -57,6 +59,13 @@ def canon_text(t: str):
                     summary.append(l.rstrip())
             return [sorted(units) + sorted(comments) + ["--summary--"] + sorted(summary), lines[k:]]
     return [sorted(lines), []]
+
+
+def canon_printed(r):
+    """a printing conversion: what went to stdout, exactly (timestamp aside), and what was returned"""
+    if r[0] != "ok":
+        return [r[0], str(r[1]).split(":")[0]]
+    return ["ok", sorted(l for l in r[1].split("\n") if not l.startswith("Generated on")), r[2] if len(r) > 2 else None]
 
 
 def canon_result(kind, r):
@@ -162,6 +171,23 @@ def run(ctx):
                 break
         res.case(canon_json(case["calls"]), case["calls"] if len(res.samples) < 4 else None)
         res.count("histories")
+    # the printing form of the converters on a colour terminal (FORCE_COLOR): what is printed for a file does not depend on an
+    # earlier conversion that returned its text
+    col = {"FORCE_COLOR": "1"}
+    pf = pool[1 % len(pool)]
+    with ThreadPoolExecutor(max_workers=8) as ex:
+        fresh_print = list(ex.map(lambda k: worker([[k, pf]], extra_env=col)[0], ["cpp_print", "py_print"]))
+        after = list(ex.map(lambda h: worker(h, extra_env=col), [[["cpp", pool[0]], ["cpp_print", pf]], [["py", pf], ["py_print", pf]],
+                                                                   [["py", pool[0]], ["cpp_print", pf]]]))
+    for h, out, want in zip((["cpp", "cpp_print"], ["py", "py_print"], ["py", "cpp_print"]), after, (fresh_print[0], fresh_print[1], fresh_print[0])):
+        res.case()
+        res.count("printing_histories")
+        if canon_printed(out[-1]) != canon_printed(want):
+            a, b = canon_printed(out[-1]), canon_printed(want)
+            diff = [x for x in (a[1] if a[0] == "ok" else []) if b[0] == "ok" and x not in b[1]][:3]
+            res.violation("the text printed for a file differs after an earlier conversion in the same process", {"kind": "history", "calls": h, "env": col},
+                          impl=diff or str(a)[:300], model=[x for x in (b[1] if b[0] == "ok" else []) if a[0] == "ok" and x not in a[1]][:3],
+                          clause="independence from earlier reads / conversions")
     # hash seeds: same canonical output whatever the seed; exactly the same text under the same seed
     seeds = list(range(4)) if tier == "quick" else list(range(32))
     # a file with three spline resonances and the K-matrix family: several multi-line declarations whose order could follow the seed
